@@ -32,6 +32,8 @@ def precond (W : World) (form : Form) (f : Func) (args : List Val) : Prop :=
    | .secAll, _ => args ≠ []
    | .secMix pat, _ => mixSize pat = args.length ∧ pat.any Mix.isHole = true
    | .listMix pat, _ => mixSize pat = args.length ∧ pat.any Mix.isHole = true
+   /- callee-slot sections: any mix of 0 or more slots; the world's dynamic call IS `call` here -/
+   | .calleeMix pat, _ => mixSize pat = args.length ∧ W.callDyn (.func f) args = call W (.func f) args
    /- "(a f)(b) agrees with them when a is not itself a function" -/
    | .juxt, a :: _ => a.isFunc = false
    /- "whenever the two-argument call f(a, b) succeeds and f(b) is a function" -/
